@@ -423,6 +423,7 @@ def is_c03(d):
 def is_c02(d):
     return any('@early' in x for x in at_events(d.actual)) or (d.res(d.expected) != d.res(d.actual) and 'kind=conc' in (d.cfg or '') + 'kind=async')
 def is_c07(d):
+    if d.field(d.expected, 'alive') != d.field(d.actual, 'alive') or d.field(d.expected, 'freed') != d.field(d.actual, 'freed'): return True
     return opname(d.op()) in ('drop', 'dropbuf', 'resplit') or d.expected.startswith('live=') or any(x.startswith(('and:', 'or:', 'fence', 'free')) for x in at_events(d.expected) + at_events(d.actual))
 def is_c10(d):
     return len(at_events(d.expected)) != len(at_events(d.actual)) or at_events(d.expected) != at_events(d.actual)
